@@ -350,3 +350,7 @@ PRODUCT_REPLAY = '''  sat_core *sat = new sat_core(); for (int i = 0; i < %d; i+
   for (size_t k = 0; k < ls.size(); k++) if (!possible.count(1ul << k)) { ok = false; why += " no model with the literal true and only argument " + std::to_string(k) + " true;"; }
   observed = "new_at_most_one(" + show(ls) + ") = " + show(ret) + ":" + why; required = "literal true forces at-most-one; no satisfying pattern excluded";
 '''
+
+
+# what the evidence file says is NOT decided by this module, and what it assumes
+INFO = {'not_under_contract': ['histories of more than two requests (cache reuse is covered for two)', 'the product encoding of new_at_most_one beyond the concrete lists of the bounded stand-in', 'digit-level structure of the cache keys (a number is one token in the string model)', 'core.cpp / ov_theory.cpp call sites of these constructs'], 'assumptions': ['value listeners of sat_core do not touch the network (no listener is registered in these jobs)']}
